@@ -12,6 +12,17 @@ fn oracle() -> Oracle {
         let first_ret = shutdown_rets.iter().min().copied();
         // every call invoked after some shutdown() returned is refused
         if let Some(fr) = first_ret {
+            // a lazy iterator created before shutdown() returned: every `next()` that begins afterwards is a read of
+            // its own and must come back empty
+            for c in run.calls.iter().filter(|c| c.inv <= fr && !c.elems.is_empty()) {
+                if let Res::MultiRead(vs) = &c.res {
+                    for (i, (a, _)) in c.elems.iter().enumerate() {
+                        if *a > fr && vs.get(i).copied().flatten().is_some() {
+                            out.push(Finding::new("read-after-shutdown", "shutdown:iterator-element-served-after-shutdown", format!("{}: element #{} was fetched (step {}) after shutdown() had returned (step {}) and is {:?}", c.short(), i, a, fr, vs[i])));
+                        }
+                    }
+                }
+            }
             for c in run.calls.iter().filter(|c| c.inv > fr) {
                 match &c.res {
                     Res::Write { err, .. } if !*err => out.push(Finding::new("write-after-shutdown", "shutdown:write-accepted-after-shutdown", format!("{} was invoked after shutdown() had returned and did not return an error", c.short()))),
@@ -71,6 +82,10 @@ fn programs() -> Vec<Program> {
     v.push(mk("shutdown || put(b) || delete(a)", 1, vec![put(1, 2)], vec![vec![Op::Shutdown], vec![put(2, 2)], vec![del(1)]]));
     v.push(mk("shutdown;shutdown || put(b);put(c)", 1, vec![put(1, 2)], vec![vec![Op::Shutdown, Op::Shutdown], vec![put(2, 2), put(3, 2)]]));
     v.push(mk("shutdown || multi_get([a,b]);get_ref(a)", 2, vec![put(1, 2), put(2, 2)], vec![vec![Op::Shutdown], vec![Op::MultiRead { keys: vec![1, 2], variant: ReadVariant::MultiGetIterator }, Op::Read { k: 1, variant: ReadVariant::GetRef }]]));
+    // an iterator created before the shutdown and drained across it, while a put queued ahead of the Shutdown command
+    // lands after the store was cleared
+    v.push(mk("shutdown || put(b) || multi_get_iterator([b,b,b])", 2, vec![put(1, 2)], vec![vec![Op::Shutdown], vec![put(2, 2)], vec![Op::MultiRead { keys: vec![2, 2, 2], variant: ReadVariant::MultiGetIterator }]]));
+    v.push(mk("put(b);shutdown || multi_get_map_iterator([b,b])", 2, vec![put(1, 2)], vec![vec![put(2, 2), Op::Shutdown], vec![Op::MultiRead { keys: vec![2, 2], variant: ReadVariant::MultiGetMapIterator }]]));
     {
         let mut p = mk("shutdown || put(b);upsert(a);delete(a) || put(c);get(a) (queue 1)", 1, vec![put(1, 2)], vec![vec![Op::Shutdown], vec![put(2, 2), ups(1), del(1)], vec![put(3, 2), get(1)]]);
         p.thorough_only = true;
